@@ -514,7 +514,7 @@ func genC02(g *Gen) {
 	g.Exhaust = append(g.Exhaust, fmt.Sprintf("all-ones bitmaps of 1..%d words x all i", g.N(3, 6)))
 
 	// (5) random bitmaps of 1..40 words of every density incl. runs of empty words
-	nb := g.N(260, 9000)
+	nb := g.N(260, 7000)
 	for k := 0; k < nb; k++ {
 		n := g.R.Range(1, 40)
 		if g.R.Intn(3) == 0 {
